@@ -111,6 +111,15 @@ impl Parser {
                 break;
             };
 
+            // `self` is skipped below without its (optional) annotation: `self: T` leaves a type where a name is expected.
+            if ident_node.as_rule() != Rule::ident {
+                return Err(new_err(
+                    ident_node.as_span(),
+                    &file_name,
+                    "expected a parameter name here (`self` cannot have a type annotation)".to_owned(),
+                ));
+            }
+
             if c == 0 {
                 let ident_str = ident_node.as_str();
                 if ident_str == "self" && input.user_data().is_function_a_class_method() {
